@@ -97,6 +97,25 @@ def db_scenario(text_good, text_bad):
                 probs.append("a flagged page has indexed notes: %r" % out[:80])
         except Exception as e:  # noqa: BLE001
             probs.append("whitelisting db create raised %s" % type(e).__name__)
+            return probs
+        # the whitelist names pages, not fragments of names: other broken pages whose relative paths are parts of /
+        # contain the whitelisted one are still refused; the whitelisted page itself stays accepted
+        for other in ("oj.zo", "sub/proj.zo", "proj.zo.zo"):
+            write_tree(d, {other: text_bad})
+            for cmd, fn in (("db create", Z.db_create), ("db reindex", Z.db_reindex)):
+                try:
+                    fn(d)
+                    probs.append("%s accepted broken page %s; only proj.zo is whitelisted" % (cmd, other))
+                except RuntimeError:
+                    pass
+                except Exception as e:  # noqa: BLE001
+                    probs.append("%s raised %s on broken page %s" % (cmd, type(e).__name__, other))
+            os.remove(os.path.join(d, other))
+        try:
+            Z.db_create(d)
+            Z.db_reindex(d)
+        except Exception as e:  # noqa: BLE001
+            probs.append("a directory whose only broken page is whitelisted was refused: %s" % type(e).__name__)
     return probs
 
 
@@ -149,7 +168,7 @@ def run(oc, tier, seed):
         oc.evaluations += 1
         oc.count("db_scenarios")
         if probs:
-            oc.spec_fail.append(({"scenario": "create, damage, reindex x2, create, create --whitelist", "bad_page": text_bad},
+            oc.spec_fail.append(({"scenario": "create, damage, reindex x2, create, create --whitelist, then other broken pages with related names (create, reindex)", "bad_page": text_bad},
                                  probs, "refused unless whitelisted; never indexed", None))
             break
     if len(oc.samples) < 2:
